@@ -230,12 +230,112 @@ impl CList {
     { unimplemented!() }
 }
 
-/// the epilogue of `index_chroms` (drain_iter/collect, dedup_by_key, sort_by, dedup_by_key, length
-/// comparison) is iterator/Vec-adaptor code outside the Verus subset: replaced by this shim with NO
-/// contract at all (nothing about the final result is claimed from it).
+// ---------------- the epilogue of `index_chroms` (real text, carved out below as `finish_index`) ----------------
+pub open spec fn nm(e: Entry) -> Seq<u8> { e.1.bytes() }
+/// two neighbours carry the same chromosome name
+pub open spec fn adj_dup(s: Seq<Entry>) -> bool { exists|i: int| 0 <= i < s.len() - 1 && nm(#[trigger] s[i]) == nm(s[i + 1]) }
+/// some chromosome name occurs at two different places
+pub open spec fn any_dup(s: Seq<Entry>) -> bool { exists|i: int, j: int| 0 <= i < j < s.len() && nm(#[trigger] s[i]) == nm(#[trigger] s[j]) }
+/// equal names sit next to each other (what sorting by name achieves)
+pub open spec fn contiguous_names(s: Seq<Entry>) -> bool {
+    forall|i: int, j: int, k: int| 0 <= i <= k <= j < s.len() && nm(#[trigger] s[i]) == nm(#[trigger] s[j]) ==> nm(#[trigger] s[k]) == nm(s[i])
+}
+/// `Vec::dedup_by_key(|e| e.1.clone())`: of every run of neighbours with the same name the first survives
+pub open spec fn dedup_runs(s: Seq<Entry>) -> Seq<Entry>
+    decreases s.len()
+{
+    if s.len() <= 1 { s }
+    else if nm(s[s.len() - 2]) == nm(s.last()) { dedup_runs(s.drop_last()) }
+    else { dedup_runs(s.drop_last()).push(s.last()) }
+}
+pub proof fn lemma_dedup_runs(s: Seq<Entry>)
+    ensures
+        dedup_runs(s).len() <= s.len(),
+        s.len() > 0 ==> dedup_runs(s).len() > 0 && dedup_runs(s).last() == s.last() || (s.len() > 0 && dedup_runs(s).len() > 0 && nm(dedup_runs(s).last()) == nm(s.last())),
+        (dedup_runs(s).len() == s.len()) <==> !adj_dup(s),
+        !adj_dup(s) ==> dedup_runs(s) == s,
+    decreases s.len()
+{
+    if s.len() > 1 {
+        let t = s.drop_last();
+        lemma_dedup_runs(t);
+        if nm(s[s.len() - 2]) == nm(s.last()) {
+            assert(nm(#[trigger] s[s.len() - 2]) == nm(s[s.len() - 2 + 1]));
+            assert(adj_dup(s));
+        } else {
+            if adj_dup(s) {
+                let i = choose|i: int| 0 <= i < s.len() - 1 && nm(#[trigger] s[i]) == nm(s[i + 1]);
+                assert(i < s.len() - 2);
+                assert(nm(#[trigger] t[i]) == nm(t[i + 1]));
+                assert(adj_dup(t));
+            }
+            if adj_dup(t) {
+                let i = choose|i: int| 0 <= i < t.len() - 1 && nm(#[trigger] t[i]) == nm(t[i + 1]);
+                assert(nm(#[trigger] s[i]) == nm(s[i + 1]));
+                assert(adj_dup(s));
+            }
+            if !adj_dup(s) { assert(dedup_runs(t) == t); assert(t.push(s.last()) =~= s); }
+        }
+    }
+}
+/// in a list whose equal names are contiguous, a repeated name shows up as two equal neighbours
+pub proof fn lemma_contiguous_dup(s: Seq<Entry>)
+    requires contiguous_names(s),
+    ensures any_dup(s) <==> adj_dup(s),
+{
+    if any_dup(s) {
+        let (i, j) = choose|i: int, j: int| 0 <= i < j < s.len() && nm(#[trigger] s[i]) == nm(#[trigger] s[j]);
+        assert(nm(#[trigger] s[i + 1]) == nm(s[i]));
+        assert(nm(#[trigger] s[i]) == nm(s[i + 1]));
+        assert(adj_dup(s));
+    }
+    if adj_dup(s) {
+        let i = choose|i: int| 0 <= i < s.len() - 1 && nm(#[trigger] s[i]) == nm(s[i + 1]);
+        assert(nm(#[trigger] s[i]) == nm(#[trigger] s[i + 1]));
+        assert(any_dup(s));
+    }
+}
+/// repeated names are a matter of the names only
+pub proof fn lemma_same_names_same_dups(a: Seq<Entry>, b: Seq<Entry>)
+    requires a.len() == b.len(), forall|i: int| 0 <= i < a.len() ==> nm(#[trigger] a[i]) == nm(b[i]),
+    ensures any_dup(a) == any_dup(b),
+{
+    if any_dup(a) {
+        let (i, j) = choose|i: int, j: int| 0 <= i < j < a.len() && nm(#[trigger] a[i]) == nm(#[trigger] a[j]);
+        assert(nm(#[trigger] b[i]) == nm(#[trigger] b[j]));
+    }
+    if any_dup(b) {
+        let (i, j) = choose|i: int, j: int| 0 <= i < j < b.len() && nm(#[trigger] b[i]) == nm(#[trigger] b[j]);
+        assert(nm(#[trigger] a[i]) == nm(#[trigger] a[j]));
+    }
+}
+/// `chroms.drain_iter().collect()` (IndexList -> Vec, list order)
 #[verifier::external_body]
-pub fn finish_index(chroms: CList) -> (r: Result<Option<Vec<Entry>>, IoError>)
+pub fn drain_collect(chroms: CList) -> (r: Vec<Entry>) ensures r@ == chroms@ { unimplemented!() }
+/// `Vec::clone` of the entry list
+#[verifier::external_body]
+pub fn clone_entries(v: &Vec<Entry>) -> (r: Vec<Entry>)
+    ensures r@.len() == v@.len(), forall|i: int| 0 <= i < v@.len() ==> (#[trigger] r@[i]).0 == v@[i].0 && nm(r@[i]) == nm(v@[i])
 { unimplemented!() }
+/// `v.dedup_by_key(|index| index.1.clone())` (ASSUMED std contract)
+#[verifier::external_body]
+pub fn dedup_by_name(v: &mut Vec<Entry>) ensures final(v)@ == dedup_runs(old(v)@) { unimplemented!() }
+/// `v.sort_by(|a, b| a.1.cmp(&b.1))` (ASSUMED std contract: a permutation ordered by the total order on names; the
+/// two consequences the proof needs are stated directly: equal names become contiguous, and a permutation neither
+/// creates nor removes repeated names)
+#[verifier::external_body]
+pub fn sort_by_name(v: &mut Vec<Entry>)
+    ensures final(v)@.len() == old(v)@.len(), contiguous_names(final(v)@), any_dup(final(v)@) == any_dup(old(v)@)
+{ unimplemented!() }
+/// `v.sort()` on (offset, name) pairs (ASSUMED: ordered by offset first; a list whose offsets already increase
+/// strictly is left as it is).  Not used by the code today: present so that an edit using it is judged.
+#[verifier::external_body]
+pub fn sort_entries(v: &mut Vec<Entry>)
+    ensures final(v)@.len() == old(v)@.len(), offsets_sorted(old(v)@) ==> final(v)@ == old(v)@
+{ unimplemented!() }
+/// any other ordering (`sort_by_key`, `sort_unstable_by`, ..): a permutation about which nothing else is known
+#[verifier::external_body]
+pub fn sort_somehow(v: &mut Vec<Entry>) ensures final(v)@.len() == old(v)@.len() { unimplemented!() }
 /// `io::Error::new(io::ErrorKind::InvalidData, "Empty file".to_string())`
 #[verifier::external_body]
 pub fn err_empty_file() -> (r: IoError)
@@ -807,6 +907,44 @@ proof fn lemma_spliced_covered(c: Seq<u8>, o: CList, n: CList, p: int, lo: int, 
         assert(l_first@[0].0 == 0 && l_first@.len() == 1);
         lemma_depth_100(c); [[L: depth_limit_100_suffices_below_2_pow_49_bytes]]
     }
+//@end
+
+// ---- epilogue of index_chroms: `let mut chroms: Vec<_> = chroms.drain_iter().collect(); ... Ok(Some(chroms))` ----
+//@extract fn bigtools/src/bed/indexer.rs index_chroms
+//@presub /\A.*\n([ \t]*let mut chroms: Vec<_> = chroms\.drain_iter\(\)\.collect\(\);.*\n[ \t]*Ok\(Some\(chroms\)\)\n)\}\s*\Z/ => pub fn finish_index(chroms: CList) -> Result<Option<Vec<Entry>>, IoError> {\n\1} min=1 count=1
+//@sub /chroms\.drain_iter\(\)\.collect\(\)/ => drain_collect(chroms) min=0
+//@sub /(\w+)\.dedup_by_key\(\|(\w+)\| \2\.1\.clone\(\)\);/ => dedup_by_name(&mut \1); min=0
+//@sub /(\w+)\.sort_by\(\|a, b\| a\.1\.cmp\(&b\.1\)\);/ => sort_by_name(&mut \1); min=0
+//@sub /(\w+)\.sort(_unstable)?\(\);/ => sort_entries(&mut \1); min=0
+//@sub /(\w+)\.sort\w*\([^;]*\);/ => sort_somehow(&mut \1); min=0
+//@sub /(\w+)\.clone\(\)/ => clone_entries(&\1) min=0
+//@ret r
+//@sig
+    requires
+        [[L: epilogue/pre_offsets_strictly_increase]]
+        offsets_sorted(chroms@),
+    ensures
+        r is Ok,
+        // C18: "... or reports that the file is not grouped": a chromosome that starts more than one DISCOVERED run
+        [[L: repeated_chromosome_is_reported_as_not_grouped]]
+        (r == Ok::<Option<Vec<Entry>>, IoError>(None)) <==> any_dup(dedup_runs(chroms@)),
+        [[L: index_is_the_discovered_run_starts_in_file_order]]
+        r matches Ok(Some(l)) ==> l@ == dedup_runs(chroms@),
+//@at /if chroms\.len\(\) != deduped_chroms\.len\(\)/ before
+    proof {
+        let c1 = dedup_runs(chroms0@);
+        lemma_dedup_runs(chroms0@);
+        lemma_dedup_runs(c1);
+        lemma_dedup_runs(sorted_g);
+        if contiguous_names(sorted_g) { lemma_contiguous_dup(sorted_g); }
+        if cloned_g.len() == c1.len() { lemma_same_names_same_dups(c1, cloned_g); }
+    }
+//@at /deduped_chroms\.dedup_by_key|dedup_by_name\(&mut deduped_chroms\)/ before
+    let ghost sorted_g = deduped_chroms@;
+//@at /let mut deduped_chroms = / after
+    let ghost cloned_g = deduped_chroms@;
+//@open
+    let ghost chroms0 = chroms;
 //@end
 
 } // verus!
